@@ -170,7 +170,7 @@ pub fn decode(prop: &str, sub: &str, data: &[u8]) -> Option<serde_json::Value> {
                         if u.arbitrary::<bool>().ok()? {
                             Op::Reset
                         } else {
-                            Op::TraitFinalizeReset(u.int_in_range(0u8..=2).ok()?)
+                            Op::TraitFinalizeReset(u.int_in_range(0u8..=31).ok()?)
                         }
                     }
                     12 => Op::Clone,
